@@ -110,9 +110,47 @@ def scenario(ctx, rng, o, kind):
         sc.close()
 
 
+def reuse_scenario(ctx, rng, maxchan):
+    """Finished flows make their identifier reusable: with MAX_CHANNEL = maxchan, maxchan + 2 flows that each
+    run to completion one after the other must all be accepted."""
+    o = tg.Opts(nflows=maxchan + 2, steps=0, maxchan=maxchan, chani=0)
+    sc = tg.Scenario(rng, o)
+    try:
+        for k in range(maxchan + 2):
+            n0 = len(sc.t.flows)
+            sc.do(('accept',))
+            if sc.stop:
+                break
+            if len(sc.t.flows) == n0:
+                tg.report(ctx, sc, 'C02:teardown:identifier-not-reusable', k, 'accept %d with MAX_CHANNEL=%d' % (k, maxchan),
+                          'a finished flow frees its id for the next connection', 'connection discarded: no free id')
+                break
+            i = len(sc.t.flows) - 1
+            sc.env_write(i, 'app', tg.payload(rng, 10, i))
+            sc.env_write(i, 'dst', tg.payload(rng, 3000, i + 50))
+            sc.drain()
+            sc.do(('ae', i))
+            sc.do(('de', i))
+            q = sc.drain()
+            tg.oracle_eof_order(ctx, sc, 'C02', 'sequential flow %d' % k)
+            if q and not sc.stop:
+                tg.oracle_teardown(ctx, sc, 'C02')
+        tg.oracle_alive(ctx, sc, 'C02', 'run')
+        return sc.s.ins, sc.s.outs
+    finally:
+        sc.close()
+
+
 def run(ctx):
     rng = ctx.rng
     all_in, all_out = [], []
+    for maxchan in (1, 2, 3):
+        ins, outs = reuse_scenario(ctx, rng, maxchan)
+        all_in.append(ins)
+        all_out.append(outs)
+        ctx.count()
+        ctx.mark(('reuse', maxchan), True)
+        ctx.hist('kind=id-reuse')
     kinds = ['app-first', 'dst-first', 'both', 'close-before-connect', 'half-close-then-reply', 'none']
     n = ctx.scale(60, 1500)
     for k in range(n):
